@@ -6,6 +6,7 @@ import (
 	"strconv"
 	"strings"
 
+	"evylang.dev/evy/pkg/bytecode"
 	"evylang.dev/evy/pkg/parser"
 )
 
@@ -202,5 +203,129 @@ func c16ModelBytes(src string, c c17Compiled, in map[string]any, r *Result, mode
 			Detail: "the Compile.v model and bytecode.Compiler disagree on " + what,
 			Input:  in, Impl: map[string]any{"bytes": gb, "consts": gconsts, "globals": c.GCount, "locals": c.LCount, "disasm": headLines(c.bc.Instructions.String(), 80)},
 			Model: map[string]any{"bytes": mb.String(), "consts": mconsts, "globals": mx.L[3].S, "locals": mx.L[4].S, "ast": ast}})
+	}
+}
+
+// ---------- the VM model (Vm.v, through Compile.v's run_case) against the real VM ----------
+func sxBytes(l []SX) string {
+	b := make([]byte, len(l))
+	for i, x := range l {
+		n, _ := strconv.Atoi(x.S)
+		b[i] = byte(n)
+	}
+	return string(b)
+}
+
+func canonModelValue(x SX) string {
+	if x.Kind == "sym" {
+		if x.S == "nil" {
+			return "unset"
+		}
+		return x.S
+	}
+	if x.Kind != "lst" || len(x.L) == 0 {
+		return "?" + x.String()
+	}
+	switch x.L[0].S {
+	case "num":
+		u, _ := strconv.ParseUint(x.L[1].S, 10, 64)
+		return fmt.Sprintf("N%016x", u)
+	case "bool":
+		if x.L[1].S == "true" {
+			return "Bt"
+		}
+		return "Bf"
+	case "str":
+		return "S" + strconv.Quote(sxBytes(x.L[1:]))
+	case "arr":
+		parts := make([]string, 0, len(x.L)-1)
+		for _, e := range x.L[1:] {
+			parts = append(parts, canonModelValue(e))
+		}
+		return "A[" + strings.Join(parts, " ") + "]"
+	case "map":
+		parts := make([]string, 0, len(x.L)-1)
+		for _, kv := range x.L[1:] {
+			parts = append(parts, strconv.Quote(sxBytes(kv.L[0].L))+":"+canonModelValue(kv.L[1]))
+		}
+		return "M{" + strings.Join(parts, " ") + "}"
+	}
+	return "?" + x.String()
+}
+
+func hasOpcode(code []byte, want bytecode.Opcode) bool {
+	for i := 0; i < len(code); {
+		def, err := bytecode.Lookup(bytecode.Opcode(code[i]))
+		if err != nil {
+			return false
+		}
+		if bytecode.Opcode(code[i]) == want {
+			return true
+		}
+		i++
+		for _, w := range def.OperandWidths {
+			i += w
+		}
+	}
+	return false
+}
+
+// c16ModelVM: programs whose bytecode has no OpSetIndex (the model does not
+// have the heap effect of element stores) are run on the extracted VM model
+// and compared with the real VM: outcome class, sp, every global slot.
+func c16ModelVM(c c17Compiled, vm c16VM, in map[string]any, r *Result, vmModel *Model) {
+	if vmModel == nil || hasOpcode(c.Code, bytecode.OpSetIndex) || vm.Class == "timeout" || len(c.Code) > 20000 {
+		// (the model fetches by skipn: quadratic on very long code)
+		return
+	}
+	ans, err := vmModel.Ask("(run " + astProgram(c.prog) + ")")
+	if err != nil {
+		r.Violate(Violation{Kind: "correspondence", Key: "model-crash", Detail: err.Error(), Input: in})
+		return
+	}
+	mx, err := ParseSX(ans)
+	if err != nil || mx.Kind != "lst" || len(mx.L) < 1 {
+		r.Violate(Violation{Kind: "correspondence", Key: "vm-model-output", Detail: ans, Input: in})
+		return
+	}
+	r.Dist("vm-model-compared")
+	mclass := mx.L[0].S
+	switch mclass {
+	case "halted":
+		mclass = "ok"
+	case "failed":
+		mclass = "panic:" + mx.L[1].S
+	case "crashed":
+		mclass = "gopanic"
+	case "outoffuel":
+		r.Dist("vm-model-outoffuel")
+		return
+	}
+	differ := func(what string, impl, model any) {
+		r.Violate(Violation{Kind: "correspondence", Key: "vm-model-differs", Detail: "the Vm.v model and bytecode.VM disagree on " + what,
+			Input: in, Impl: impl, Model: model})
+	}
+	if mclass != vm.Class {
+		differ("the outcome", vm.Class+" "+vm.Detail, ans)
+		return
+	}
+	if mclass != "ok" {
+		return
+	}
+	slots := make([]string, c.GCount)
+	for i := range slots {
+		slots[i] = "unset"
+	}
+	for name, i := range c.comp.VerifGlobalSymbols() {
+		if i < len(slots) {
+			slots[i] = vm.Globals[name]
+		}
+	}
+	mslots := make([]string, len(mx.L[2].L))
+	for i, g := range mx.L[2].L {
+		mslots[i] = canonModelValue(g)
+	}
+	if strings.Join(slots, "\x1e") != strings.Join(mslots, "\x1e") || mx.L[1].S != strconv.Itoa(c.LCount) {
+		differ("the final globals / sp", map[string]any{"globals": slots, "sp": c.LCount}, map[string]any{"globals": mslots, "sp": mx.L[1].S})
 	}
 }
